@@ -18,16 +18,19 @@ open ExitRace
 and every cleanup step preceding `publish(Stopped)` was done: pid and name unregistered, group
 monitors and memberships gone, children terminated, supervisor notified, unlinked, `post_stop`
 returned on a graceful exit) — and this is still true in the current state, so the snapshot it
-takes afterwards shows a fully stopped actor. For any number of waiters, any schedule. -/
+takes afterwards shows a fully stopped actor. For any number of waiters, any schedule. `post_stop` is
+required as long as `Exiter.hasPostStop` holds: it is cleared only by a kill accepted BEFORE the
+processing loop reached `post_stop` (`Tid.kill`; the exit is then a killed one and `post_stop` never
+runs) — see `post_stop_skipped_only_after_kill`. -/
 theorem waiter_returns_only_after_full_stop (g0 : G) (h0 : Initial g0) (sched : List Tid) :
     ∀ w ∈ (run g0 sched).waiters, ∀ ok, w.pc = .returned ok →
       ok = true ∧ (run g0 sched).sh.status = stStopped ∧
-      (run g0 sched).sh.flags.complete g0.exiter.hasPostStop = true := by
+      (run g0 sched).sh.flags.complete (run g0 sched).exiter.hasPostStop = true := by
   intro w hw ok hok
   have I := inv_run _ sched (inv_initial g0 h0)
   obtain ⟨h1, h12⟩ := (I.ws w hw).ret ok hok
   have hok' := okNow_of_stage I.toInvCore h12
-  simp only [okNow, snapshotOk, Bool.and_eq_true, beq_iff_eq, hasPostStop_run] at hok'
+  simp only [okNow, snapshotOk, Bool.and_eq_true, beq_iff_eq] at hok'
   exact ⟨h1, hok'.1, hok'.2⟩
 
 /-- (safety, state form) When a waiter has returned, the registry entry of the actor's name is not
@@ -157,6 +160,40 @@ theorem abandon_changes_nothing (g : G) (i : Nat) :
       · split
         · first | rfl | (simp only [notifyOne]; split <;> rfl)
         · rfl
+
+/-- `post_stop` is skipped only after an accepted kill: along every schedule the `post_stop`
+obligation of the safety theorems is the initial one (graceful exit or not) unless a `kill()` /
+`kill_and_wait()` was accepted before the processing loop reached `post_stop` — the signal then wins
+the first poll of `run_with_signal(post_stop)` and the exit continues as a killed one. A kill
+accepted later (inside `post_stop`, during `cleanup`) changes nothing. -/
+theorem post_stop_skipped_only_after_kill (g0 : G) (hk : g0.sh.killPending = false) (sched : List Tid) :
+    (run g0 sched).exiter.hasPostStop = (g0.exiter.hasPostStop && !(run g0 sched).sh.killPending) ∧
+    (Tid.kill ∉ sched → (run g0 sched).exiter.hasPostStop = g0.exiter.hasPostStop) := by
+  have h := kp_run g0.exiter.hasPostStop g0 sched (by rw [hk]; simp)
+  refine ⟨h, fun hn => ?_⟩
+  clear h
+  induction sched generalizing g0 with
+  | nil => rfl
+  | cons t l ih =>
+    simp only [run, List.foldl_cons]
+    have ht : t ≠ .kill := fun e => hn (by simp [e])
+    have hl : Tid.kill ∉ l := fun e => hn (List.mem_cons_of_mem _ e)
+    obtain ⟨h1, h2⟩ := step_keeps_kp g0 t ht
+    have := ih (step g0 t) (by rw [h2]; exact hk) hl
+    simp only [run] at this
+    rw [this, h1]
+
+/-- a kill accepted while a graceful exit is between `Stopping` and `post_stop`: `post_stop` never
+runs, the waiters still return only after the full stop (of a killed exit); the same kill accepted
+once the actor is inside `post_stop` changes nothing -/
+example :
+    let g := run (init true [] [] 1) ([.w 0, .w 0, .w 0] ++ List.replicate 3 .e ++ [.kill] ++ List.replicate 16 .e ++ [.w 0])
+    g.exiter.hasPostStop = false ∧ g.sh.flags.postStop = false ∧ g.sh.status = 6 ∧ g.exiter.finished = true ∧
+      g.waiters.map (·.pc) = [.returned true] := by decide
+example :
+    let g := run (init true [] [] 1) ([.w 0, .w 0, .w 0] ++ List.replicate 5 .e ++ [.kill] ++ List.replicate 16 .e ++ [.w 0])
+    g.exiter.hasPostStop = true ∧ g.sh.flags.postStop = true ∧ g.sh.killPending = false ∧
+      g.waiters.map (·.pc) = [.returned true] := by decide
 
 /-- (exit clean-up runs once — the terminal supervision event) The supervisor is handed exactly one
 terminal event when no statement of `cleanup` panics, and never more than two: `Sh.supEvents` counts
@@ -528,3 +565,4 @@ end C06
 #print axioms C06.send_step_outcomes
 #print axioms C06.every_call_completes
 #print axioms C06.terminal_events_bounded
+#print axioms C06.post_stop_skipped_only_after_kill
